@@ -215,35 +215,10 @@ func runC03(c *Ctx) {
 				continue
 			}
 			// Version of the fresh node: absent or constant 0
-			ok := true
-			al, _ := strip(w.val).(*ssa.Alloc)
-			if al == nil {
-				ok = false
-			} else {
-				for _, r := range *al.Referrers() {
-					fa, isFA := r.(*ssa.FieldAddr)
-					if !isFA {
-						continue
-					}
-					if fv, _ := fieldVarOf(fa); fv != g.metaF {
-						continue
-					}
-					for _, rr := range *fa.Referrers() {
-						if st, isSt := rr.(*ssa.Store); isSt {
-							if u, isU := st.Val.(*ssa.UnOp); isU {
-								if mal, isAl := u.X.(*ssa.Alloc); isAl {
-									for _, fsx := range fieldStores(mal) {
-										if fsx.f == g.versionF {
-											if k, isK := constInt(fsx.st.Val); !isK || k != 0 {
-												ok = false
-											}
-										}
-									}
-								}
-							}
-						}
-					}
-				}
+			_, ver, ok := g.freshNodeFields(w.val, 0)
+			if ok && ver != nil {
+				k, isK := constInt(ver)
+				ok = isK && k == 0
 			}
 			c.check(ok, "C03.R2", fnName(fn)+"/discovered-at-version-0", w.instr.Pos(), "a node discovered from a digest starts at Version 0, so the next digest requests all of its state", "a node discovered from a digest does not start at Version 0: the entries at or below that version are never requested")
 		}
@@ -646,36 +621,37 @@ func c12Window(c *Ctx) {
 	}
 	fs := computeFacts(add)
 	nAdd := 0
+	hasPrevIn := func(facts []Fact, want bool) bool {
+		return anyFact(facts, func(f Fact) bool {
+			ac, ok := f.V.(*ssa.Call)
+			if !ok || commonName(&ac.Call) != "(time.Time).After" || f.T != want {
+				return false
+			}
+			_, ok = loadedField(ac.Call.Args[0], lastTS)
+			return ok && isZeroStruct(ac.Call.Args[1])
+		})
+	}
 	allInstrs(add, func(i ssa.Instruction) {
 		cl, ok := i.(*ssa.Call)
 		if !ok || commonName(&cl.Call) != gsFn("arrivalIntervals).Add") {
 			return
 		}
-		nAdd++
-		facts := fs.At(cl.Block())
-		hasPrev := func(want bool) bool {
-			return anyFact(facts, func(f Fact) bool {
-				ac, ok := f.V.(*ssa.Call)
-				if !ok || commonName(&ac.Call) != "(time.Time).After" || f.T != want {
-					return false
+		for _, alt := range valueAlternatives(cl.Call.Args[1], fs, cl.Block()) {
+			nAdd++
+			arg, facts := alt.v, alt.facts
+			switch {
+			case hasPrevIn(facts, true):
+				c.check(elapsed(arg, ts), "C12.R2", fnName(add)+"/sample-is-elapsed", cl.Pos(), "sample = timestamp.Sub(lastTimestamp).Nanoseconds(), unmodified",
+					"the sample fed to the window is not exactly the time since the previous arrival (clamped, scaled or taken from another clock): "+path(arg))
+			case hasPrevIn(facts, false):
+				good := false
+				if ns, ok := arg.(*ssa.Call); ok && commonName(&ns.Call) == "(time.Duration).Nanoseconds" {
+					_, good = loadedField(ns.Call.Args[0], boot)
 				}
-				_, ok = loadedField(ac.Call.Args[0], lastTS)
-				return ok && isZeroStruct(ac.Call.Args[1])
-			})
-		}
-		arg := cl.Call.Args[1]
-		switch {
-		case hasPrev(true):
-			c.check(elapsed(arg, ts), "C12.R2", fnName(add)+"/sample-is-elapsed", cl.Pos(), "sample = timestamp.Sub(lastTimestamp).Nanoseconds(), unmodified",
-				"the sample fed to the window is not exactly the time since the previous arrival (clamped, scaled or taken from another clock): "+path(arg))
-		case hasPrev(false):
-			good := false
-			if ns, ok := arg.(*ssa.Call); ok && commonName(&ns.Call) == "(time.Duration).Nanoseconds" {
-				_, good = loadedField(ns.Call.Args[0], boot)
+				c.check(good, "C12.R2", fnName(add)+"/first-sample-is-bootstrap", cl.Pos(), "first sample = bootstrapInterval", "the first sample is not the bootstrap interval")
+			default:
+				c.fail("C12.R2", fnName(add)+"/sample-arm", cl.Pos(), "a sample is added outside the two arms decided by `a previous arrival exists`")
 			}
-			c.check(good, "C12.R2", fnName(add)+"/first-sample-is-bootstrap", cl.Pos(), "first sample = bootstrapInterval", "the first sample is not the bootstrap interval")
-		default:
-			c.fail("C12.R2", fnName(add)+"/sample-arm", cl.Pos(), "a sample is added outside the two arms decided by `a previous arrival exists`")
 		}
 	})
 	if nAdd != 2 {
@@ -834,6 +810,28 @@ func c12Intervals(c *Ctx) {
 						if sc, ok := cv.X.(*ssa.Call); ok && commonName(&sc.Call) == gsFn("arrivalIntervals).size") {
 							den = true
 						}
+						// size() inlined: len(intervals) when full, else index (read after the increment)
+						if ph, ok := cv.X.(*ssa.Phi); ok {
+							okAll := len(ph.Edges) == 2
+							for k, e := range ph.Edges {
+								ef := fs.OnEdge(ph.Block().Preds[k], ph.Block())
+								full := anyFact(ef, func(fc Fact) bool { _, ok := loadedField(fc.V, fullF); return ok && fc.T })
+								notFull := anyFact(ef, func(fc Fact) bool { _, ok := loadedField(fc.V, fullF); return ok && !fc.T })
+								_, isIdx := loadedField(e, idxF)
+								isLen := false
+								if lc, ok := e.(*ssa.Call); ok {
+									if b, ok := lc.Call.Value.(*ssa.Builtin); ok && b.Name() == "len" {
+										_, isLen = loadedField(lc.Call.Args[0], ivF)
+									}
+								}
+								if !((full && isLen) || (notFull && isIdx)) {
+									okAll = false
+								}
+							}
+							if okAll {
+								den = true
+							}
+						}
 					}
 					mean = num && den
 				}
@@ -900,4 +898,22 @@ func c12Intervals(c *Ctx) {
 			c.check(good, "C12.R3", fmt.Sprintf("%s/size[full=%v]", fnName(size), full), r.Pos(), "size = capacity when full, else index", "size() does not return the number of samples held")
 		}
 	}
+}
+
+type valAlt struct {
+	v     ssa.Value
+	facts []Fact
+}
+
+// valueAlternatives: the values v can take with the facts under which each is
+// selected (one level of phi), or v itself with the facts of its use.
+func valueAlternatives(v ssa.Value, fs *Facts, use *ssa.BasicBlock) []valAlt {
+	if ph, ok := v.(*ssa.Phi); ok {
+		var out []valAlt
+		for k, e := range ph.Edges {
+			out = append(out, valAlt{e, fs.OnEdge(ph.Block().Preds[k], ph.Block())})
+		}
+		return out
+	}
+	return []valAlt{{v, fs.At(use)}}
 }
